@@ -122,13 +122,20 @@ class Problem:
     def best_free(self):
         g = self.A @ self.W @ self.A.T
         c = self.A @ self.W @ self.t
-        th = np.linalg.pinv(g) @ c
+        # a dependency that holds up to rounding leaves an eigenvalue of rounding size: cut well above it
+        th = np.linalg.pinv(g, rcond=1e-10, hermitian=True) @ c
         return th, self.score(th)
 
     def best_nonneg(self, rows=None):
         a = self.A if rows is None else self.A[rows]
         l = np.linalg.cholesky(self.W)
-        th, _ = scipy.optimize.nnls(l.T @ a.T, l.T @ self.t)
+        m_, b_ = l.T @ a.T, l.T @ self.t
+        if independent_columns(m_):
+            th, _ = scipy.optimize.nnls(m_, b_)
+        else:
+            # rank-deficient (up to rounding): scipy's solver may put weights of 1e16 on a column that is
+            # rounding noise (observed) - enumerate the independent subsets instead
+            th = nnls_bruteforce(m_, b_)
         x = th @ a
         q = x @ self.W @ x
         sc = 0.0 if q <= 0 else float(x @ self.W @ self.t / math.sqrt(q))
@@ -162,6 +169,42 @@ class Problem:
             if cand[0] > best[0]:
                 best = (cand[0], i, float(cand[1]))
         return best
+
+
+def independent_columns(m_, rtol=1e-9):
+    """are the columns (each scaled to unit length; none negligible) linearly independent beyond rounding?"""
+    cn = np.linalg.norm(m_, axis=0)
+    if m_.shape[1] == 0:
+        return True
+    if cn.min() <= rtol * max(cn.max(), 1e-300):
+        return False
+    sv = np.linalg.svd(m_ / cn, compute_uv=False)
+    return bool(len(sv) == m_.shape[1] and sv[-1] > rtol * sv[0])
+
+
+def nnls_bruteforce(m_, b_, rtol=1e-9):
+    """min |b - M x|, x >= 0 by its definition: the minimum is attained on a set of linearly independent
+    columns whose unconstrained least-squares weights are non-negative - try every such set (k <= 6)"""
+    import itertools
+    k = m_.shape[1]
+    cn = np.linalg.norm(m_, axis=0)
+    ok = [j for j in range(k) if cn[j] > rtol * max(float(cn.max()), 1e-300)]
+    best = (float(np.linalg.norm(b_)), np.zeros(k))
+    for r in range(1, len(ok) + 1):
+        for sub in itertools.combinations(ok, r):
+            idx = list(sub)
+            ms = m_[:, idx] / cn[idx]
+            if not independent_columns(ms, rtol):
+                continue
+            xs = np.linalg.lstsq(ms, b_, rcond=None)[0] / cn[idx]
+            if np.any(xs < -1e-12 * max(float(np.max(np.abs(xs))), 1e-300)):
+                continue
+            x = np.zeros(k)
+            x[idx] = np.maximum(xs, 0)
+            rn = float(np.linalg.norm(b_ - m_ @ x))
+            if rn < best[0]:
+                best = (rn, x)
+    return best[1]
 
 
 def competitors(rng, theta, k, nonneg, n_rand=12):
